@@ -283,6 +283,7 @@ func (o *Out) PreHistory(r *core.Run) bool {
 	}
 	cfgA := *o.Cfg
 	cfgA.Reuse = nil
+	cfgA.SharedKeyStores = nil // the earlier configuration had its own key-store objects
 	swap := func(k world.KeyStyle) world.KeyStyle {
 		switch k {
 		case world.KeyField, world.KeyTLS:
